@@ -6,6 +6,12 @@ props = [json.loads(l) for l in open(os.path.join(V, "properties.jsonl"))]
 ALL = [p["id"] for p in props]
 
 CHECKS = {
+ "C01": dict(tech="round-trip oracle at the writer/reader boundary: canonical projection compared before/after, two passes, coverage-forced enums",
+   text="Generated documents of the SPDX-representable class (13 graph shapes incl. cycles, self loops, several edges per source/type, several/no roots; all 44 edge types and 16 checksum algorithms forced in turn; every carried attribute independently present; 6 indentations) are written through writer.WriteStreamWithOptions and read back through reader.ParseStream; a projection built from the statement (node set, typed edge triples, roots, per-node attributes under the NOASSERTION/NONE conventions, dates to the second, first supplier/originator as SPDX actor strings) is compared, and a second pass must be a fixed point.",
+   note="Trusts the projection (input-class narrowings are listed in the evidence assumptions and DESIGN.md) and tools-golang's JSON encoder/decoder as part of the observed system.", ref="DESIGN.md §5 C01"),
+ "C02": dict(tech="round-trip oracle over single-rooted containment trees x every permutation of the stored edge list (<=4/5 edges) x CycloneDX 1.4/1.5",
+   text="Generated containment trees (random, deep, wide; grouped or split edges) with per-version component types, external-reference types and hash algorithms forced in turn are written in every permutation of their stored edge list when small (4 PRNG-chosen orders otherwise), read back and compared through a projection (node set, root, parent map, per-node CycloneDX attributes, serial number, version, lifecycles); second pass must be a fixed point.",
+   note="Trusts the projection and the harness's own per-version tables; cyclonedx-go is part of the observed system. Known finding cdx-reader-first-licence-only is keyed by a computed signature.", ref="DESIGN.md §5 C02"),
  "C08": dict(tech="invariant monitor (well-formed / normalised) after every step of exhaustive small-universe and random operation programs",
    text="Runtime invariant monitoring: every result of every editing operation is checked for well-formedness (and normalisation where the statement requires it), RemoveNodes against its exact set model. All 4301 well-formed lists on <=3 ids are enumerated as receivers (thorough: against all 4301 arguments), plus random operation histories whose results re-enter the pool. Decides the property for the executions produced; exhaustive only on the enumerated universe.",
    note="Trusts the harness's own WF/normalised predicates and protobuf reflection (proto.Clone). Operands are well-formed by construction and re-checked before each step.", ref="DESIGN.md §5 C08"),
